@@ -14,6 +14,8 @@ Decided (structural, for every accepted policy):
         Create / Update / Delete / Emit handlers of RunState::step.
  R5 K7  Emit passes recall = true exactly on the CommandContext::Recall arm (false on Policy, error
         elsewhere).
+ R6 K7  the contexts that admit writes admit nothing else but writes and finish-function calls.
+ R7 K7  lower_expression applies the finish-expression gate in every context that admits writes.
 Not decided: nothing structural; relies on C23/C24 for control flow inside the compiled code."""
 from rules.core import pat
 from rules.core.facts import Operand, PASS_THROUGH
@@ -175,3 +177,33 @@ def run(F, rep, tier):
         ok = ok and any(c.name in ("err", "from_position") for c in step.calls if c.bb in step.reachable(other, cut_blocks=set(csw[0][1].values()))) and eff[0].bb not in step.reachable(other, cut_blocks=set(csw[0][1].values()))
     rep.check(ok, "vm|emit-recall-flag", "K7 table", "Emit: recall flag by context %s; any other context is an error" % tab,
               "Emit's recalled flag no longer matches the command context: %s" % tab, step.site())
+    finish_is_infallible(F, rep, table)
+
+
+def finish_is_infallible(F, rep, table):
+    """R6/R7: 'a panic changes no facts' needs more than 'writes only in finish': once a write has run,
+    nothing later in the finish block may stop the command. R6: the only statements admitted in the contexts
+    that admit writes are the writes themselves and calls of finish functions. R7: in every such context
+    lower_expression applies the finish-expression gate (only infallible expressions)."""
+    ls = F.fn("aranya_policy_compiler::compile::lower::lower_statements")
+    write_ctxs = set()
+    for v in WRITES:
+        write_ctxs |= set(table.get(v) or [])
+    admitted = sorted(k for k, ctxs in table.items() if k != "Finish" and (("*" in ctxs) or (set(ctxs) & write_ctxs)))
+    extra = [k for k in admitted if k not in WRITES + ("FunctionCall",)]
+    rep.check(not extra, "lower|finish-admits-only-writes", "K7 admissibility table",
+              "the contexts that admit fact writes and effects (%s) admit only %s" % (sorted(write_ctxs), admitted),
+              "statement kinds %s are admitted inside finish blocks / finish functions next to the writes: a statement that can stop the command (debug_assert compiles to "
+              "Exit(Panic) in debug mode) after a `create`/`emit` has run makes a panicking command change facts" % extra, ls.site())
+    le = F.fn("aranya_policy_compiler::compile::lower::lower_expression")
+    gate = [c for c in le.calls if c.name == "check_finish_expression"]
+    gated = set()
+    for x in le.discr_switches("StatementContext"):
+        for v in x[1]:
+            ve = le.variant_edge(x, v)
+            if ve and gate and any(le.dominates(ve[0], g.bb) for g in gate):
+                gated.add(v)
+    rep.check(bool(gate) and write_ctxs <= gated, "lower|finish-expression-gate-covers-write-contexts", "K7 admissibility table",
+              "lower_expression applies check_finish_expression in every context that admits writes (%s)" % sorted(gated),
+              "lower_expression applies the finish-expression gate only in %s but writes are admitted in %s: fallible expressions (function calls, todo(), queries) are accepted "
+              "between the writes of %s" % (sorted(gated), sorted(write_ctxs), sorted(write_ctxs - gated)), le.site())
